@@ -104,6 +104,10 @@ def m_cell_set(ex, f, a): ex.deref(a[0]).v = a[1]; return UNIT
 def m_cell_replace(ex, f, a): c = ex.deref(a[0]); old = c.v; c.v = a[1]; return old
 
 # ----------------------------------------------------------------------------- Option / Result
+@pattern(r'^core::bool::<impl bool>::then_some(::<.*>)?$|^bool::then_some(::<.*>)?$')
+def m_bool_then_some(ex, f, a): return some(a[1]) if ex.branch_bool(a[0]) else NONE()
+@pattern(r'^core::bool::<impl bool>::then(::<.*>)?$|^bool::then(::<.*>)?$')
+def m_bool_then(ex, f, a): return some(callf(ex, a[1])) if ex.branch_bool(a[0]) else NONE()
 @exact('Option::is_none')
 def m_is_none(ex, f, a): return _is_variant(ex, a[0], 0)
 @exact('Option::is_some')
